@@ -36,7 +36,7 @@ class Free:
 CORE = frozenset("""int float varint zigzag bytes gbytes pstr pascal cstr gstr flag enum flagsenum mapping const computed
  pass padding struct seq fseq array grange parray if ite switch rebuild default prefixed fixedsized padded aligned
  nullterm nullstrip check""".split())
-SEQUENTIAL = CORE | frozenset("""docs runtil select optional stopif bitwise bitstruct bytewise byteswapped bitsswapped xor rol
+SEQUENTIAL = CORE | frozenset("""docs expr lazybound runtil select optional stopif bitwise bitstruct bytewise byteswapped bitsswapped xor rol
  compressed hex hexdump oneof noneof alignedstruct bomstr index terminated""".split())
 
 
@@ -75,6 +75,13 @@ class GenCtx:
 
 def ref_ast(levels, name, style="attr"):
     return ["this", ["_"] * levels + [name], style]
+
+
+def gref(draw, g, levels, name, style="attr"):
+    """reference to a registered member; now and then spelt through _root when it lives in the outermost Struct"""
+    if g.rootrefs and g.scope_depth and g.scope_depth - levels == 1 and draw(st.integers(0, 3)) == 0:
+        return ["this", ["_root", name], style]
+    return ref_ast(levels, name, style)
 
 
 # ---------------------------------------------------------------------------------------------
@@ -128,9 +135,7 @@ def gen_len_expr(draw, g, allow_const=True):
         base = ["this", ["_params", name], draw(st.sampled_from(["attr", "item"]))]
     else:
         levels, name, _ = draw(st.sampled_from(g.ints))
-        base = ref_ast(levels, name, draw(st.sampled_from(["attr", "item"])))
-        if g.rootrefs and g.scope_depth and g.scope_depth - levels == 1 and draw(st.integers(0, 1)) == 0:
-            base = ["this", ["_root", name], draw(st.sampled_from(["attr", "item"]))]     # member of the outermost Struct
+        base = gref(draw, g, levels, name, draw(st.sampled_from(["attr", "item"])))
     form = draw(st.sampled_from(["id", "id", "id", "+k", "*k", "k+", "-k"]))
     if form == "+k":
         return ["bin", "+", base, ["const", draw(st.integers(0, 2))]]
@@ -146,7 +151,7 @@ def gen_len_expr(draw, g, allow_const=True):
 def gen_leaf(draw, g):
     """non-greedy leaf with min size >= 1 unless noted"""
     opts = ["int", "int", "int", "float", "varint", "zigzag", "bytes", "pstr", "pascal", "cstr", "flag", "enum", "flagsenum",
-            "mapping", "const", "oneof", "noneof", "hexint"]
+            "mapping", "const", "oneof", "noneof", "hexint", "expr"]
     opts = [o for o in opts if g.has(o) or (o == "hexint" and g.has("hex"))]
     o = draw(st.sampled_from(opts))
     if o == "int":
@@ -170,6 +175,11 @@ def gen_leaf(draw, g):
         return gen_const(draw)
     if o == "hexint":
         return [draw(st.sampled_from(["hex", "hexdump"])), draw(st.sampled_from([gen_int(draw), ["bytes", draw(st.integers(0, 4))]]))]
+    if o == "expr":
+        s = gen_int(draw, unsigned=True, maxbytes=2)
+        hi = (1 << (8 * s[1])) - 1
+        kind = draw(st.sampled_from(["exprsym", "expradd", "exprvalid"]))
+        return [kind, s, draw(st.integers(1, hi)) if kind != "expradd" else draw(st.integers(-300, 300))]
     raise AssertionError(o)
 
 
@@ -290,7 +300,7 @@ def min_size(spec):
         return 1
     if k == "const":
         return len(spec[1]) if spec[2] is None else min_size(spec[2])
-    if k in ("enum", "flagsenum", "mapping", "oneof", "noneof", "hex", "hexdump"):
+    if k in ("enum", "flagsenum", "mapping", "oneof", "noneof", "hex", "hexdump", "exprsym", "expradd", "exprvalid", "lazybound"):
         return min_size(spec[1])
     if k in ("bytes", "pstr"):
         return spec[1] if isinstance(spec[1], int) else 0
@@ -344,6 +354,8 @@ def gen_group(draw, g):
             return [[name, spec]]
         if spec[0] == "int" and int_range(spec)[1] >= 5 and not g.ctxfree:
             g.ints.append((0, name, "int"))
+        if g.has("lazybound") and draw(st.integers(0, 19)) == 0:
+            spec = ["lazybound", spec]
         return [[name, spec]]
     if o == "anon":
         c = draw(st.sampled_from(["const", "padding", "pass"]))
@@ -357,23 +369,23 @@ def gen_group(draw, g):
         lf = gen_lenfield(draw, varint_ok=True)
         g.ints.append((0, n, "int"))
         d = g.fresh("d")
-        return [[n, lf], [d, gen_dependent(draw, g, ref_ast(0, n, draw(st.sampled_from(["attr", "item"]))))]]
+        return [[n, lf], [d, gen_dependent(draw, g, gref(draw, g, 0, n, draw(st.sampled_from(["attr", "item"]))))]]
     if o == "rebuildpair" and g.has("rebuild"):
         n, d = g.fresh("n"), g.fresh("d")
         lf = gen_lenfield(draw)
         dep = draw(st.sampled_from(["bytes", "array", "gbytes_tail"]))
         if dep == "gbytes_tail" and g.tail:
-            return [[n, ["rebuild", lf, ["fn", "len", ref_ast(0, d)]]], [d, ["gbytes"]]]
+            return [[n, ["rebuild", lf, ["fn", "len", gref(draw, g, 0, d)]]], [d, ["gbytes"]]]
         if dep == "array":
-            return [[n, ["rebuild", lf, ["fn", "len", ref_ast(0, d)]]], [d, ["array", ref_ast(0, n), gen_element(draw, g.child(tail=False))]]]
-        return [[n, ["rebuild", lf, ["fn", "len", ref_ast(0, d)]]], [d, ["bytes", ref_ast(0, n)]]]
+            return [[n, ["rebuild", lf, ["fn", "len", gref(draw, g, 0, d)]]], [d, ["array", gref(draw, g, 0, n), gen_element(draw, g.child(tail=False))]]]
+        return [[n, ["rebuild", lf, ["fn", "len", gref(draw, g, 0, d)]]], [d, ["bytes", gref(draw, g, 0, n)]]]
     if o == "condpair":
         t, v = g.fresh("t"), g.fresh("v")
         tk = draw(st.sampled_from(["flag", "int", "enum"]))
         body = lambda: gen_spec(draw, g.child(tail=False))  # noqa
         if tk == "flag" and g.has("if"):
             form = draw(st.sampled_from(["if", "ite", "ifnot"]))
-            cond = ref_ast(0, t)
+            cond = gref(draw, g, 0, t)
             if form == "if":
                 return [[t, ["flag"]], [v, ["if", cond, body()]]]
             if form == "ifnot":
@@ -384,18 +396,18 @@ def gen_group(draw, g):
             tspec = ["enum", ["int", 1, False, "b", "alias"], table, "kw"]
             form = draw(st.sampled_from(["switch", "ite"]))
             if form == "ite":
-                return [[t, tspec], [v, ["ite", ["bin", "==", ref_ast(0, t), ["const", "A"]], body(), body()]]]
+                return [[t, tspec], [v, ["ite", ["bin", "==", gref(draw, g, 0, t), ["const", "A"]], body(), body()]]]
             cases = [[lab, body()] for lab, _ in table[:draw(st.integers(1, 3))]]
-            return [[t, tspec], [v, ["switch", ref_ast(0, t), cases, body() if draw(st.booleans()) else None]]]
+            return [[t, tspec], [v, ["switch", gref(draw, g, 0, t), cases, body() if draw(st.booleans()) else None]]]
         if g.has("switch"):
             tspec = gen_int(draw, unsigned=True, maxbytes=2)
             form = draw(st.sampled_from(["switch", "ite", "itecmp"]))
             if form == "switch":
                 keys = draw(st.lists(st.integers(0, 5), min_size=1, max_size=3, unique=True))
                 cases = [[kk, body()] for kk in keys]
-                return [[t, tspec], [v, ["switch", ref_ast(0, t), cases, body() if draw(st.booleans()) else None]]]
+                return [[t, tspec], [v, ["switch", gref(draw, g, 0, t), cases, body() if draw(st.booleans()) else None]]]
             op = draw(st.sampled_from(["==", "!=", "<", ">="])) if form == "itecmp" else "=="
-            return [[t, tspec], [v, ["ite", ["bin", op, ref_ast(0, t), ["const", draw(st.integers(0, 3))]], body(), body()]]]
+            return [[t, tspec], [v, ["ite", ["bin", op, gref(draw, g, 0, t), ["const", draw(st.integers(0, 3))]], body(), body()]]]
         return [[t, ["flag"]]]
     if o == "paramcond":
         pname = draw(st.sampled_from(sorted(g.params)))
@@ -415,9 +427,9 @@ def gen_group(draw, g):
         if g.ints:
             l1, n1, _ = draw(st.sampled_from(g.ints))
             e = draw(st.sampled_from([
-                ref_ast(l1, n1), ["bin", "*", ref_ast(l1, n1), ["const", 2]], ["bin", "+", ["const", 1], ref_ast(l1, n1)],
-                ["bin", "-", ["const", 10], ref_ast(l1, n1)], ["bin", "==", ref_ast(l1, n1), ["const", 0]],
-                ["un", "-", ref_ast(l1, n1)]]))
+                gref(draw, g, l1, n1), ["bin", "*", gref(draw, g, l1, n1), ["const", 2]], ["bin", "+", ["const", 1], gref(draw, g, l1, n1)],
+                ["bin", "-", ["const", 10], gref(draw, g, l1, n1)], ["bin", "==", gref(draw, g, l1, n1), ["const", 0]],
+                ["un", "-", gref(draw, g, l1, n1)]]))
             return [[g.fresh("c"), ["computed", e]]]
         return [[g.fresh("c"), ["computed", ["const", draw(st.sampled_from([7, "k", b"\x00", None, True]))]]]]
     if o == "default" and g.has("default"):
@@ -426,10 +438,10 @@ def gen_group(draw, g):
         return [[g.fresh("q"), ["default", sub, draw(st.integers(max(lo, -100), min(hi, 100)))]]]
     if o == "checked" and g.has("check") and g.ints:
         l1, n1, _ = draw(st.sampled_from(g.ints))
-        return [[None, ["check", ["bin", ">=", ref_ast(l1, n1), ["const", 0]]]]]
+        return [[None, ["check", ["bin", ">=", gref(draw, g, l1, n1), ["const", 0]]]]]
     if o == "stopif":
         t = g.fresh("s")
-        return [[t, ["flag"]], [None, ["stopif", ref_ast(0, t)]], [g.fresh(), gen_int(draw, maxbytes=2)]]
+        return [[t, ["flag"]], [None, ["stopif", gref(draw, g, 0, t)]], [g.fresh(), gen_int(draw, maxbytes=2)]]
     if o == "nested" and g.depth > 0:
         name = g.fresh()
         kind = draw(st.sampled_from(["struct", "struct", "seq", "fseq"]))
@@ -711,6 +723,8 @@ def gen_value(draw, spec, sc, vp=None):
             n = draw(st.integers(0, 5))
         if n < 0:
             n = 0
+        if n > 70000:
+            n = 70000       # (a length nobody can satisfy cheaply: the value is then simply rejected by build)
         return _gen_bytes(draw, n, n, vp)
     if k == "gbytes":
         hi = 8 if vp.limit is None else max(0, min(vp.limit, 8))
@@ -766,6 +780,11 @@ def gen_value(draw, spec, sc, vp=None):
         return gen_value(draw, spec[2], sc)
     if k == "oneof":
         return draw(st.sampled_from(spec[2]))
+    if k in ("exprsym", "expradd", "exprvalid"):
+        lo, hi = int_range(spec[1])
+        if k == "expradd":
+            return biased_int(draw, lo + spec[2], hi + spec[2])
+        return biased_int(draw, lo, hi if k == "exprsym" else min(hi, spec[2] - 1))
     if k == "noneof":
         lo, hi = (0, 1 << 30) if spec[1][0] == "varint" else int_range(spec[1])
         for _ in range(8):
@@ -845,7 +864,7 @@ def gen_value(draw, spec, sc, vp=None):
         if draw(st.booleans()):
             return None
         return V(draw, spec[1], sc, vp)
-    if k in ("hex", "hexdump", "docs", "bytewise", "bitwise", "byteswapped", "bitsswapped", "nullstrip"):
+    if k in ("hex", "hexdump", "docs", "bytewise", "bitwise", "byteswapped", "bitsswapped", "nullstrip", "lazybound"):
         if k == "nullstrip":
             return V(draw, spec[1], sc, VP(limit=vp.limit, avoid=vp.avoid, unit=vp.unit, nostrip=spec[2]))
         return V(draw, spec[1], sc, vp)
@@ -953,7 +972,7 @@ def _gen_members(draw, members, sc, vp):
         last = i == n - 1
         used, consts = referenced_constants(members[i + 1:], name) if name else (False, [])
         mvp = vp if last else VP(avoid=vp.avoid, unit=vp.unit)
-        while sub[0] == "docs":
+        while sub[0] in ("docs", "lazybound"):
             sub = sub[1]
         if sub[0] == "rebuild":
             v = draw(st.sampled_from([None, None, 0]))
